@@ -510,6 +510,9 @@ func runC18(c *fw.Ctx) {
 			return
 		}
 		bound := 2
+		if len(p.Writers) >= 2 && !c.Thorough() {
+			bound = 1 // scan + two writer threads: one preemption (thorough: 3)
+		}
 		if p.Fill > 0 {
 			bound = 1 // a writer running entirely inside one lock gap of the scan, at every gap; thorough: 2
 		}
